@@ -5,6 +5,7 @@ from leanio import ulp_diff
 
 LEVEL = "proof"
 LEMMA_MODULES = ["MatExp", "RateMat", "Consts", "Lotz"]
+ALWAYS_SEARCH = True     # the end-to-end statements (exp(tJ)N0, continuation with a shared tolerance dict, current scaling) are cheap
 RULE = ("basic_simulation is run with scipy.integrate.solve_ivp wrapped from outside; the captured record (jac, fun on random N, y0, t_span, method, "
         "user kwargs, returned arrays) is compared with Basic.call evaluated by the driver (Jacobian 1e-11 + exact zero pattern; y0 bit-exact) over "
         "elements x e_kin log-uniform (1 eV, 1 MeV) x j (0.1, 1e4) x dr_fwhm in {None, 0, (0.5,100)} x CNI x N_initial in {None, random, unit} x "
@@ -149,9 +150,17 @@ def stmt(z, j, e, w, cni, N0, method, rng, tight=True, history=None):
         add("matrix_exponential", f"abundances at t={res.t[-1]:.3e} deviate from exp(tJ)N0 by {np.abs(res.N[:, -1] - ref).max():.2e} (sum {s:.2e})")
     # continuation and current scaling
     ts = t_max * rng.uniform(0.2, 0.8)
-    r1 = ebisim.basic_simulation(el, j, e, ts, dr_fwhm=w, N_initial=None if N0 is None else np.array(N0, float), CNI=cni, solver_kwargs=dict(skw))
-    r2 = ebisim.basic_simulation(el, j, e, t_max - ts, dr_fwhm=w, N_initial=r1.N[:, -1].copy(), CNI=cni, solver_kwargs=dict(skw))
-    if np.abs(r2.N[:, -1] - res.N[:, -1]).max() > 2e-5 * s:
+    # (a user who continues a run re-uses the dictionary holding the tolerances: one dict object for both segments)
+    shared = dict(skw)
+    try:
+        r1 = ebisim.basic_simulation(el, j, e, ts, dr_fwhm=w, N_initial=None if N0 is None else np.array(N0, float), CNI=cni, solver_kwargs=shared)
+        r2 = ebisim.basic_simulation(el, j, e, t_max - ts, dr_fwhm=w, N_initial=r1.N[:, -1].copy(), CNI=cni, solver_kwargs=shared)
+    except Exception as ex:
+        add("continuation", f"continuing a run of {ts:.3e} s for another {t_max - ts:.3e} s with the same tolerance dictionary raises {type(ex).__name__}: {str(ex)[:100]}")
+        return out
+    if r1.t[-1] != ts or r2.t[-1] != t_max - ts:
+        add("continuation", f"the two consecutive runs end at t = {r1.t[-1]!r}, {r2.t[-1]!r} instead of {ts!r}, {t_max - ts!r}")
+    elif np.abs(r2.N[:, -1] - res.N[:, -1]).max() > 2e-5 * s:
         add("continuation", f"two consecutive runs ({ts:.3e} + {t_max-ts:.3e}) differ from the single run by {np.abs(r2.N[:, -1] - res.N[:, -1]).max():.2e}")
     kf = float(rng.choice([2.0, 3.0, 10.0]))
     r3 = ebisim.basic_simulation(el, j * kf, e, t_max / kf, dr_fwhm=w, N_initial=None if N0 is None else np.array(N0, float), CNI=cni, solver_kwargs=dict(skw))
